@@ -40,7 +40,7 @@ def main():
             notes = (m.group(1) if m else txt.strip().splitlines()[0]).strip(' *#-')[:110]
         rows.append('| %s | %s | %s | %s |' % (s, ', '.join(f.replace('stdnum/', '') for f in files_of(patch))[:48], notes.replace('|', '/'),
                                                '; '.join(hits) if hits else '**not caught**'))
-    head = ('%d seeded changes (two rounds of 18 independent sub-agents x 3). %d are caught by the quick tier of the check of '
+    head = ('%d seeded changes (three rounds of 18 independent sub-agents x 3; the round-3 authors were asked for changes that a monitor built on library-judged inputs would miss). %d are caught by the quick tier of the check of '
             'the property they were written against, %d more only by another check (state- and thread-dependent changes are '
             'C13\'s business whatever property they were aimed at), %d by none.\n\n'
             '| seed | files | mechanism (from the author\'s notes) | caught by (first new signature) |\n|---|---|---|---|\n' % (
